@@ -84,9 +84,6 @@ ImplTag(b, p) ==
        ELSE IF ~FitsU32(v.w) THEN IErr(p)                      \* (v >> 3) > MaxTagValue
        ELSE Out("ok", <<KeyFn(v.w), KeyWt(v.w)>>, <<>>, p + v.n)
 
-\* the key DecodeTag read last: field number, wire type, where it starts and ends (none: en = -1)
-NoTag == [fn |-> -1, wt |-> -1, s |-> -1, en |-> -1]
-
 \* Skip(tag, wt): the raw field starts at the key DecodeTag has just read when that key is this field's (its actual extent: a key is not
 \* necessarily minimal, d4693b2); otherwise SizeOfTagKey(tag) bytes before the cursor
 ImplSkip(b, p, mode, fn, wt, lt) ==
